@@ -19,6 +19,9 @@ CMP = 'adsg_core/optimization/hierarchy/complete.py:'
 SUP = 'adsg_core/graph/sup/dsg.py:'
 
 CASES = [
+    (GP + 'GraphProcessor.get_graph@imputation-tail', 'break', "            if used_value is None:\n                used_values[i] = self._get_inactive_value(des_vars[i])", "            if not used_value:\n                used_values[i] = self._get_inactive_value(des_vars[i])"),
+    (GP + 'GraphProcessor.get_graph@imputation-tail', 'break', 'is_active = [is_act for i, is_act in enumerate(is_active) if i not in self._fixed_values]', 'is_active = [is_act for i, is_act in enumerate(is_active)]'),
+    (GP + 'GraphProcessor.get_graph@imputation-tail', 'break', 'used_values[i] = self._get_inactive_value(des_vars[i])', 'used_values[i] = self._get_inactive_value(des_vars[0])'),
     (SUP + 'SupExistenceMapping.resolve', 'break', "            if src_node.str_context() in src_nodes:\n                sup_tgt_option_node = sup_option_node\n                break", "            if src_node.str_context() in src_nodes:\n                sup_tgt_option_node = sup_option_node"),
     (SUP + 'SupExistenceMapping.resolve', 'break', 'if src_node.str_context() in src_nodes:', 'if str(src_node) in src_nodes:'),
     (SUP + 'SupDSG.initialize_choices', 'break', '            if choice_node in mapped_choice_nodes:\n                dup_mapped.append(choice_node)', '            if choice_node not in mapped_choice_nodes:\n                dup_mapped.append(choice_node)'),
